@@ -103,6 +103,12 @@ func c02Exec(run *ev.Run, c ev.Case) {
 				one("kg-bmc-zero", 0, 0)
 				one("kg-console-is-password", 0, 0)
 				one("kg-console-empty-bmc-zero", 0, 0)
+				one("bmc-hashes-other-role-10", 0, 0)
+				one("bmc-hashes-other-role-01", 0, 0)
+				one("bmc-hashes-other-role-0f", 0, 0)
+				one("reuse-opts-genuine", 0, 0)
+				one("reuse-opts-zero-password", 0, 0)
+				one("reuse-opts-zero-kg", 0, 0)
 				one("kg-console-empty-bmc-random", 0, 0)
 			}
 			pre = ""
@@ -247,6 +253,13 @@ func c02Run(run *ev.Run, o c02One) {
 		if o.Kind == "kg-console-empty-bmc-random" {
 			cfg.KG = rbytes(r, 20)
 		}
+	case "bmc-hashes-other-role-10", "bmc-hashes-other-role-01", "bmc-hashes-other-role-0f":
+		// the peer knows the password but computes every hash over a role byte that differs
+		// from the one sent in RAKP 1 (name-only lookup bit, privilege bits)
+		var x int
+		fmt.Sscanf(o.Kind, "bmc-hashes-other-role-%x", &x)
+		cfg.RoleXor = byte(x)
+		wantIncorrectPassword = true
 	case "kg-bit":
 		if !o.KG {
 			cfg.KG = rbytes(r, 20)
@@ -328,6 +341,36 @@ func c02Run(run *ev.Run, o c02One) {
 		pcancel()
 		e.BMC.ResetLog()
 	}
+	if strings.HasPrefix(o.Kind, "reuse-opts") {
+		// the caller keeps one options value (same key slices) and reconnects with it
+		c1, cancel1 := e.LimitCtx(8)
+		s1, err1 := e.ST.NewV2Session(c1, opts)
+		cancel1()
+		if err1 != nil || s1 == nil {
+			run.Violation("C02:baseline-fails", fmt.Sprintf("first handshake with these options failed: %v", err1), cs, nil)
+			return
+		}
+		c2, cancel2 := e.LimitCtx(4)
+		s1.Close(c2)
+		cancel2()
+		e.BMC.ResetLog()
+		switch o.Kind {
+		case "reuse-opts-zero-password":
+			// the peer of the second handshake holds an all-zero (= empty) password
+			e.BMC.Cfg.Password = make([]byte, 20)
+			if e.BMC.Cfg.KG != nil {
+				wantIncorrectPassword = false
+			}
+			wantIncorrectPassword = true
+		case "reuse-opts-zero-kg":
+			if e.BMC.Cfg.KG == nil {
+				e.BMC.Cfg.Password = make([]byte, 20) // one-key login: the password is the SIK key too
+				wantIncorrectPassword = true
+			} else {
+				e.BMC.Cfg.KG = make([]byte, 20)
+			}
+		}
+	}
 	if o.Kind == "rehandshake" {
 		// a first handshake on this connection (correct password; variant: a failing one with
 		// yet another password), then a second one with a password the BMC does not hold
@@ -364,6 +407,13 @@ func c02Run(run *ev.Run, o c02One) {
 	desc := fmt.Sprintf("auth alg %d kg=%v mutation %s reply %d arg %d pre %q", su.Auth, o.KG, o.Kind, o.Reply, o.Arg, o.Pre)
 	if pv != nil {
 		run.Violation("C02:panic:"+panicSite(st), fmt.Sprintf("%s: panic %v\n%s", desc, pv, trimStack(st)), cs, nil)
+		return
+	}
+	if o.Kind == "reuse-opts-genuine" {
+		if err != nil || sess == nil {
+			run.Violation("C02:baseline-fails", fmt.Sprintf("%s: second handshake with the same options value against the genuine BMC failed: %v", desc, err), cs, nil)
+		}
+		run.Nontrivial(desc)
 		return
 	}
 	if o.Kind == "baseline" {
